@@ -157,12 +157,14 @@ COMPANIONS = [
     ("PairsKF10.cfg", "CommuteSound", "F10", "Sort.commute past Sort (fixed in the code)"),
     ("PairsKF20.cfg", "CommuteSound", "F20", "PartialJoin.commute past a Projection that hides a column the fixed operand also has (fixed in the code)"),
     ("PairsKF21.cfg", "CommuteSound", "F21", "Calculation.commute past a Projection that dropped a column with the same tag (fixed in the code)"),
+    ("PairsKF26.cfg", "CommuteSound", "F26", "PartialJoin.commute with unresolved common columns moves the join upstream of a Projection that dropped a key column of the fixed operand (fixed in the code)"),
+    ("PairsKF25.cfg", "CommuteSound", "F25", "Deduplication.commute past an order-dependent user-defined Reordering (fixed in the code)"),
 ]
 
 
 def run(tier: str, seed: int) -> list[Part]:
     parts = []
-    for cfg in ["PairsGeneral.cfg", "PairsSlices.cfg", "PairsSorts.cfg", "PairsJoins.cfg"] + (["PairsGeneral2.cfg"] if tier == "thorough" else []):
+    for cfg in ["PairsGeneral.cfg", "PairsSlices.cfg", "PairsSorts.cfg", "PairsJoins.cfg", "PairsCustom.cfg"] + (["PairsGeneral2.cfg"] if tier == "thorough" else []):
         t0 = time.time()
         res = run_tlc("MC_Pairs.tla", cfg)
         if res.violated:
